@@ -19,7 +19,7 @@ def plan(tier, seed):
                          {'name': 'stale_window', 'cfg': {'scenario': 'changed', 'second': 'render', 'k': 10}},
                          {'name': 'flag_before_publish', 'cfg': {'scenario': 'fresh', 'second': 'macro', 'k': 8, 'lead': 10}},
                          {'name': 'forget_before_publish', 'cfg': {'scenario': 'fresh', 'second': 'macro', 'k': 8, 'lead': 16, 'lead_b': 'use'}}])
-    dj = [{'template': t} for t in ('globals-repeat', 'macro-code', 'mutable-args')]
+    dj = [{'template': t} for t in ('globals-repeat', 'macro-code', 'mutable-args', 'render-keywords')]
     famD = dict(name='determinism_no_carried_state', module=H, fn='determinism', jobs=dj, timeout=900, vacuity=1,
                 program_key='template', mutants=[{'name': 'shared_repeat_dict', 'cfg': {'template': 'globals-repeat'}}])
     # a loader (and the templates it creates) must not modify the search-path list its caller owns, and what was
@@ -41,8 +41,8 @@ def plan(tier, seed):
         bounds=('two threads on one shared file template (first, lazily compiling use; and use after the file changed), '
                 'each doing render() or a macro lookup: every statement-level interleaving of the real cook_check and '
                 'cook for %d symbolic scheduling decisions after thread a has run ahead 0/5/10 (thorough: 0..12) statements (the remainder runs sequentially) and, in a second set, after thread a has been paused at one of 2 (thorough 5) points and thread b has completed its own check and compilation, mtime()/read() and the '
-                'compile step are stubs that tag each compiled function with the file version; two threads loading the same / different names through one shared loader (the real cache wrapper and TemplateLoader.load, instrumented; a stub template class), %d scheduling decisions after thread a has run ahead 0/18 (thorough 0/6/12/18/20) of its about 22 statements: each gets the template it would get alone and the loader then serves one instance per name; determinism: 3 templates '
-                '(global definitions, repeat state, macro, code block, caller-owned list/dict arguments) rendered twice on '
+                'compile step are stubs that tag each compiled function with the file version; two threads loading the same / different names through one shared loader (the real cache wrapper and TemplateLoader.load, instrumented; a stub template class), %d scheduling decisions after thread a has run ahead 0/18 (thorough 0/6/12/18/20) of its about 22 statements: each gets the template it would get alone and the loader then serves one instance per name; determinism: 4 templates '
+                '(global definitions, repeat state, macro, code block, caller-owned list/dict arguments, per-call translate / target_language keywords on a template with the encoding option) rendered twice on '
                 'one instance, on a second instance and after a render with other arguments, for all symbolic '
                 'arguments in range; loader: histories of 2 loads over 4 names x xml/text with every existence pattern of the candidate files leave the caller\'s search-path list unchanged and resolve independently of earlier loads. Outside: byte-code-granularity pre-emption, three threads, loader registry races '
                 '(both callers get equivalent templates), "across processes" (id()-derived identifiers cannot be given '
